@@ -765,6 +765,8 @@ class FileHashStore(HashStore):
             # `find_object` which will throw custom exceptions if there is an issue with
             # the reference files, which help us determine the path to proceed with.
             self._synchronize_object_locked_pids(pid)
+            # Tagging synchronizes on the reference-locked pids, so deleting must as well
+            self._synchronize_referenced_locked_pids(pid)
 
             try:
                 object_info_dict = self._find_object(pid)
@@ -887,6 +889,7 @@ class FileHashStore(HashStore):
                 return
         finally:
             # Release pid
+            self._release_reference_locked_pids(pid)
             self._release_object_locked_pids(pid)
 
     def delete_metadata(self, pid: str, format_id: Optional[str] = None) -> None:
